@@ -34,9 +34,16 @@ func main() {
 			"symlink-then-entry orders (symlink to an outside directory followed by a directory / file / device of the same name, or entries beneath it); destinations that already hold symlinks to outside directories and files; random mixes of these with benign entries. " +
 			"Each archive is unpacked by UnTar on the disk writer and by UnTarIndex (archive chunked into a store) in a child process chroot()ed into a scratch jail /p/q/dst with sentinel files and directories at every level and an /outside tree. " +
 			"Oracle: typed snapshot of the whole jail minus the destination subtree is unchanged (content, metadata, no new entries), whatever the call returned. Non-trivial: archive holding >=1 hostile construct that the decoder got to; distinct by (construct, entry kind, position, path, outcome)",
-		Assumptions:   []string{"the jail is a chroot on the same filesystem; escapes above the jail root cannot be observed (nor happen)"},
-		Cases:         cases,
-		Run:           run,
+		Assumptions: []string{"the jail is a chroot on the same filesystem; escapes above the jail root cannot be observed (nor happen)"},
+		Cases:       cases,
+		Run:         run,
+		ParentSetup: func(tier string, seed int64, work string) ([]string, error) {
+			// a statically linked CLI that can be exec'ed inside the chroot jail
+			os.Setenv("CGO_ENABLED", "0")
+			defer os.Unsetenv("CGO_ENABLED")
+			p, err := harness.BuildCLI(work, "desync-static", "verif", false)
+			return []string{"VERIF_CLI_STATIC=" + p}, err
+		},
 		MinNonTrivial: 20,
 		CaseTimeout:   120 * time.Second,
 	})
@@ -59,6 +66,16 @@ func jailed() {
 		os.Exit(3)
 	}
 	os.Chdir("/")
+	if m := os.Getenv("C18_MODE"); m == "cli" || m == "cli-index" {
+		// the command line tool itself, inside the jail
+		args := []string{"desync", "untar", "/in.catar", "/p/q/dst"}
+		if m == "cli-index" {
+			args = []string{"desync", "untar", "-i", "-s", "/store", "/in.caidx", "/p/q/dst"}
+		}
+		err := syscall.Exec("/desync-bin", args, []string{"HOME=/", "PATH=/"})
+		fmt.Fprintln(os.Stderr, "exec:", err)
+		os.Exit(3)
+	}
 	desync.Digest = desync.SHA512256{}
 	fs := desync.NewLocalFS("/p/q/dst", desync.LocalFSOptions{})
 	var err error
@@ -446,6 +463,10 @@ func prepareJail(jail string, dstState string) {
 	syscall.Mknod(filepath.Join(jail, "outside/dev13"), syscall.S_IFCHR|0666, 1<<8|3)
 	os.Chmod(filepath.Join(jail, "outside/dev13"), 0666)
 	os.Symlink("/outside/dev13", filepath.Join(jail, "p/q/dst/link-dev"))
+	// the command line tool needs /dev/null (go-fuse's splice package opens it at start-up)
+	os.Mkdir(filepath.Join(jail, "dev"), 0755)
+	syscall.Mknod(filepath.Join(jail, "dev/null"), syscall.S_IFCHR|0666, 1<<8|3)
+	os.Chmod(filepath.Join(jail, "dev/null"), 0666)
 	// fixed mtimes everywhere outside the destination
 	t := time.Unix(1500000000, 0)
 	filepath.Walk(jail, func(p string, info os.FileInfo, err error) error {
@@ -470,7 +491,10 @@ func outsideOf(m map[string]treegen.Snap) map[string]treegen.Snap {
 func run(c *harness.Ctx, i int) {
 	rng := c.Rng
 	raw, tag := build(rng)
-	mode := []string{"untar", "index"}[rng.Intn(2)]
+	mode := []string{"untar", "index", "untar", "index", "cli", "cli-index"}[rng.Intn(6)]
+	if os.Getenv("VERIF_CLI_STATIC") == "" && strings.HasPrefix(mode, "cli") {
+		mode = "untar"
+	}
 	dir := c.CaseDir()
 	jail := filepath.Join(dir, "jail")
 	dstState := "populated"
@@ -481,6 +505,24 @@ func run(c *harness.Ctx, i int) {
 	prepareJail(jail, dstState)
 	c.Info("construct=%s mode=%s archive=%d bytes", tag, mode, len(raw))
 	c.LogInfo()
+	if strings.HasPrefix(mode, "cli") {
+		// binary (hard link), archive / index + store inside the jail but outside the destination
+		if err := os.Link(os.Getenv("VERIF_CLI_STATIC"), filepath.Join(jail, "desync-bin")); err != nil {
+			b, _ := os.ReadFile(os.Getenv("VERIF_CLI_STATIC"))
+			os.WriteFile(filepath.Join(jail, "desync-bin"), b, 0755)
+		}
+		if mode == "cli" {
+			os.WriteFile(filepath.Join(jail, "in.catar"), raw, 0644)
+		} else {
+			sz := dsu.Sizes{Min: 64, Avg: 128, Max: 256}
+			idx := dsu.RefIndex(raw, sz)
+			idx.Index.FeatureFlags |= desync.TarFeatureFlags
+			dsu.Must(dsu.WriteIndex(filepath.Join(jail, "in.caidx"), idx))
+			_, err := dsu.FillLocalStore(filepath.Join(jail, "store"), raw, idx, false)
+			dsu.Must(err)
+		}
+	}
+	treegen.SkipContent["desync-bin"] = true
 	before, err := treegen.Snapshot(jail)
 	dsu.Must(err)
 	self, _ := os.Executable()
